@@ -22,7 +22,7 @@ META = {
     "REFERENCE error model with 5-point Jacobians, <= 10 tol chi2_final + floor; noise-free: every optimised pose (relative to the fixed first pose) equals ground truth within 1e-7. "
     "non-trivial = initial chi2 > 1e-6 (the run has to move)",
     "assumptions": ["claim limited to the calibrated neighbourhood and the listed families (undamped Gauss-Newton may legitimately diverge outside)", "reference error model + 5-point Jacobians + numpy solve trusted; the converged flag is C12's business"],
-    "required_classes": ["kind:SE2", "kind:SE3", "noise_free", "noisy", "landmarks_with_offset", "loop_closure", "tol:1e-10", "tol:0.001", "weak_information", "hist:two_stage", "hist:reanchor", "hist:shared_landmark_seed", "hist:two_sensors", "hist:two_components", "hist:landmark_first", "hist:reweighted"],
+    "required_classes": ["kind:SE2", "kind:SE3", "noise_free", "noisy", "landmarks_with_offset", "loop_closure", "tol:1e-10", "tol:0.001", "weak_information", "hist:two_stage", "hist:reanchor", "hist:shared_landmark_seed", "hist:two_sensors", "hist:two_components", "hist:landmark_first", "hist:reweighted", "hist:inplace_perturb"],
     "bounds": {"quick": "n in {3,6,12}", "thorough": "n in {3,6,12,24,40}"},
 }
 
@@ -50,7 +50,7 @@ def run_chunk(chunk, tier, seed):
                     _do(acc, {"kind": kind, "fam": fam, "n": n, "pert": pert, "noise": noise, "rad": rad, "tol": tol, "oscale": osc, "seed": seed})
                 if pert == "alt" and rad == 1.0:
                     # histories / object reuse: the judged run is not the first thing that happens to the Graph object
-                    for hist in ("two_stage", "reanchor", "shared_landmark_seed", "two_sensors", "two_components", "landmark_first", "reweighted"):
+                    for hist in ("two_stage", "reanchor", "shared_landmark_seed", "two_sensors", "two_components", "landmark_first", "reweighted", "inplace_perturb"):
                         _do(acc, {"kind": kind, "fam": fam, "n": n, "pert": pert, "noise": noise, "rad": rad, "tol": tol, "oscale": 1.0, "seed": seed, "hist": hist})
     return acc
 
@@ -227,6 +227,22 @@ def _eval_inner(case):
         truth = [t for t in truth if t[0] == mid["id"]] + [t for t in truth if t[0] != mid["id"]]
         ffp = True
     g, verts, edges = GB.build(spec)
+    if hist == "inplace_perturb":
+        # the caller first evaluates chi2 with every vertex at another place, then writes the start configuration INTO the
+        # existing pose objects (also into the anchor's): the optimiser must work from what the arrays hold now
+        start = [np.array(v.pose, dtype=float, copy=True) for v in verts]
+        for k, v in enumerate(verts):
+            arr = np.asarray(v.pose)
+            arr[: G.DIM[I.kind_of(v.pose)]] += 0.5 + 0.25 * k
+            if I.kind_of(v.pose) == "SE2":
+                arr[2] = arr[2] * 0.5 + 0.3
+            elif I.kind_of(v.pose) == "SE3":
+                arr[3:] = SF.A.unit([0.3, -0.2, 0.4, 0.8])
+        g.calc_chi2()
+        for e in edges:
+            e.calc_jacobians()
+        for v, a0 in zip(verts, start):
+            np.asarray(v.pose)[...] = a0
     if hist == "reweighted":
         # between two runs the caller replaces information matrices (down-weighting the loop closures): the second run must
         # descend the NEW objective
